@@ -1,12 +1,38 @@
 package main
 
+import "strings"
+
 type propSpec struct {
 	Rules       []func(*Run)
+	Keep        []string // rule-id prefixes whose obligations belong to this property (empty: all)
 	Explanation string
 	Assumptions []string
 }
 
+func (s propSpec) keeps(rule string) bool {
+	if len(s.Keep) == 0 {
+		return true
+	}
+	for _, k := range s.Keep {
+		if rule == k || strings.HasPrefix(rule, k) {
+			return true
+		}
+	}
+	return rule == "anchors" || rule == "tables" || rule == "controls" || rule == "loader"
+}
+
+type rl = []func(*Run)
+
 var properties = map[string]propSpec{
-	"C04": {Rules: []func(*Run){ruleAnswers, ruleJoinedGuard}, Explanation: "every path of every dispatched handler"},
-	"X":   {Rules: []func(*Run){ruleMutateRelay, ruleSenderExcluded, ruleFlagWrap, ruleNotifyGated, ruleOwnerGuard, ruleCascade}, Explanation: "scratch"},
+	"C01": {Rules: rl{ruleMutateRelay, ruleCascade}, Keep: []string{"C1", "E4"}},
+	"C02": {Rules: rl{ruleMutateRelay, ruleAnswers, ruleSenderExcluded, ruleDecoratorForward}, Keep: []string{"C1", "B5", "C2", "A2"}},
+	"C03": {Rules: rl{ruleSenderExcluded, ruleJoinedGuard, rulePairedState, ruleDispatchTotal, ruleAnswers}, Keep: []string{"J1", "J2", "E9", "A1", "B5"}},
+	"C04": {Rules: rl{ruleDispatchTotal, ruleAnswers, ruleJoinedGuard, ruleDecoratorForward}},
+	"C05": {Rules: rl{ruleOwnerGuard, ruleAnswers, ruleSenderExcluded}, Keep: []string{"D1", "B5", "J1"}},
+	"C06": {Rules: rl{ruleLeaveComplete, ruleLeaveCallers, ruleModuleCleanup, ruleCascade, ruleDecoratorForward, ruleMutateRelay}, Keep: []string{"E1", "E2", "E3", "E4", "E6", "E9", "A2", "C1"}},
+	"C07": {Rules: rl{ruleLeaveComplete, ruleLeaveCallers}, Keep: []string{"E1", "E2", "E6"}},
+	"C08": {Rules: rl{ruleDecoratorForward}, Keep: []string{"A2"}},
+	"C12": {Rules: rl{ruleCascade}, Keep: []string{"E4"}},
+	"C13": {Rules: rl{ruleNotifyGated, ruleSenderExcluded}, Keep: []string{"C5", "C2"}},
+	"C17": {Rules: rl{ruleFlagWrap}},
 }
